@@ -6,7 +6,7 @@ ID = 'C08'
 HARNESSES = ['h_c06.cpp']
 LEVEL = 'model_checking'
 BUDGET = {'quick': 200, 'thorough': 1200}
-BOUNDS = {'quick': 'families: (a) append then mutate the caller\'s frame through 9 public mutators, (b) same after an indexed store, (c) the same frame object appended 2-3 times then a point/channel column added (by name and by frames) and one stored frame replaced, (d) one vector of frames handed to point() twice under two names while the caller keeps mutating it, (e) a frame of the data set itself handed back (append / beyond the end / in place) for data sets of 1..5 frames, so that the store reallocates while its argument is read, (f) gap frames created by one indexed store 3 beyond the end, then a point/channel column; shapes 2 points x 1 channel, analog-only (0 x 1) and points-only (2 x 0), 1 sub-frame; all floats symbolic',
+BOUNDS = {'quick': 'families: (a0) as (a)/(b)/(c) with the frame handed over as a TEMPORARY or MOVED-FROM shallow copy of the caller\'s frame (it shares the caller\'s handles), (a) append then mutate the caller\'s frame through 9 public mutators, (b) same after an indexed store, (c) the same frame object appended 2-3 times then a point/channel column added (by name and by frames) and one stored frame replaced, (d) one vector of frames handed to point() twice under two names while the caller keeps mutating it, (e) a frame of the data set itself handed back (append / beyond the end / in place) for data sets of 1..5 frames, so that the store reallocates while its argument is read, (f) gap frames created by one indexed store 3 beyond the end, then a point/channel column; shapes 2 points x 1 channel, analog-only (0 x 1) and points-only (2 x 0), 1 sub-frame; all floats symbolic',
           'thorough': 'same families on shapes up to 3x2x2, 2..4 repetitions'}
 OUTSIDE = 'aliasing through API not listed in the anchors (e.g. frames obtained from data().frames() copies)'
 ASSUMPTIONS = []
@@ -14,17 +14,21 @@ ASSUMPTIONS = []
 def jobs(tier, seed):
     out = []
     shapes = [(2, 1, 1), (0, 1, 1), (2, 0, 1)] if tier == 'quick' else [(2, 1, 1), (3, 2, 2), (1, 1, 2), (0, 1, 1), (0, 2, 2), (2, 0, 1)]
-    def J(name, **cfg): out.append({'entry': 'h_c08', 'harness': 'h_c06.cpp', 'name': name, 'cfg': cfg})
+    def J(name, **cfg): cfg.setdefault('rv', 0); out.append({'entry': 'h_c08', 'harness': 'h_c06.cpp', 'name': name, 'cfg': cfg})
     for (P, C, S) in shapes:
         for fam in (0, 1):
             for mut in range(9):
                 J('handover-then-mutate-%s' % ('append' if fam == 0 else 'indexed'), family=fam, mutator=mut, P=P, C=C, S=S, pre=0, at=0)
+                for rv in (1, 2):       # the frame handed over as a temporary / moved-from shallow copy of the caller's frame
+                    if mut in (0, 2, 3, 4) or tier != 'quick': J('handover-temporary-then-mutate-%s' % ('append' if fam == 0 else 'indexed'), family=fam, mutator=mut, P=P, C=C, S=S, pre=0, at=0, rv=rv)
                 if fam == 1:
                     for at in (0, 1): J('handover-then-mutate-replace', family=1, mutator=mut, P=P, C=C, S=S, pre=2, at=at)
+                    if mut in (0, 3): J('handover-temporary-then-mutate-replace', family=1, mutator=mut, P=P, C=C, S=S, pre=2, at=1, rv=1)
         for times in ((2, 3) if tier == 'quick' else (2, 3, 4)):
             for col in (0, 1, 2, 3):
                 if col == 2 and C == 0: continue          # analog(name) needs existing sub-frames
                 for rep in ((0, 1) if col == 0 else (0,)): J('same-frame-%dx' % times, family=2, times=times, column=col, replace0=rep, P=P, C=C, S=S)
+                if col in (1, 2) and times == 2: J('same-frame-as-temporaries', family=2, times=times, column=col, replace0=0, P=P, C=C, S=S, rv=1)
             J('same-vector-twice', family=3, times=times, P=P, C=C, S=S)
         for times in (1, 2, 3, 4, 5):
             for how in (0, 1, 2): J('store-own-frame', family=4, times=times, column=how, P=P, C=C, S=S)
